@@ -13,6 +13,8 @@ DEFAULT_INIT = ["io", "errors"]
 DEFAULT_MODELS = {
     "github.com/CorentinB/warc.NewWARCWritingHTTPClient": Z + "/internal/verifmodel.NewWARCWritingHTTPClient",
     "(*github.com/CorentinB/warc.CustomHTTPClient).Close": Z + "/internal/verifmodel.WarcClientClose",
+    "(*github.com/internetarchive/gocrawlhq.Client).Add": Z + "/internal/verifmodel.HQAdd",
+    "(*github.com/internetarchive/gocrawlhq.Client).Delete": Z + "/internal/verifmodel.HQDelete",
     "github.com/grafov/m3u8.DecodeFrom": Z + "/internal/verifmodel.M3U8DecodeFrom",
     "encoding/json.Unmarshal": Z + "/internal/verifmodel.JSONUnmarshal",
     "(*encoding/json.Decoder).Decode": Z + "/internal/verifmodel.JSONDecoderDecode",
@@ -199,5 +201,38 @@ PROPS["C19"] = {
         {"pkg": EX, "func": "VerifH_C19_s3_legacy", "covers": ["object-linked", "next-page"]},
         {"pkg": EX, "func": "VerifH_C19_s3_v2", "covers": ["objects-and-prefixes", "prefix-linked", "continuation"]},
         {"pkg": EX, "func": "VerifH_C19_m3u8", "covers": ["media", "master", "alternative"]},
+    ],
+}
+
+PROPS["C10"] = {
+    "level": "model_checking",
+    "explanation": "Zeno's own string/shape handling of server-controlled input (Link header parser, attribute splitter, JSON-in-JSON sniffing, findURLs over arbitrary value shapes, file-extension rule, M3U8 walk with nil slots) "
+                   "is executed from SSA on SYMBOLIC byte strings; every index, slice, type assertion and nil dereference on every path is a panic obligation, every loop carries an unwinding bound (a spin would exceed it).",
+    "bounds": "header/attribute/text strings up to 6-7 bytes over the delimiter alphabets the parsers look at; 6 JSON value shapes; playlists as in C19",
+    "outside": "panics or hangs INSIDE third-party decoders (x/net/html, encoding/json, encoding/xml, grafov/m3u8, pdfcpu, goada): those code bases are not encoded, the decoders are total stubs; HTML, XML, PDF, sitespecific extractors; URL normalisation; body processing",
+    "assumptions": COMMON_ASSUME + ["library decoders return or fail (no panic) - the claim is about Zeno's code given such decoders",
+                                    "strings.* models validated differentially (verifmodel self-test)"],
+    "harnesses": [
+        {"pkg": EX, "func": "VerifH_C10_link_header", "covers": ["parsed", "two-links", "simple-link"]},
+        {"pkg": EX, "func": "VerifH_C10_attr", "covers": ["no-equals", "key-value"]},
+        {"pkg": EX, "func": "VerifH_C10_json_shapes", "covers": ["walked"]},
+        {"pkg": EX, "func": "VerifH_C19_m3u8", "covers": ["media", "master"]},
+        {"pkg": EX, "func": "VerifH_C19_extension", "covers": ["has-extension"]},
+    ],
+}
+
+HQ = "internal/pkg/source/hq"
+PROPS["C15"] = {
+    "level": "model_checking",
+    "explanation": "the real HQ producer chain (producer, producerReceiver, producerDispatcher, producerSender with its retry/back-off loop) runs from SSA with its goroutines against a crawl-HQ stub that fails the first k calls; "
+                   "batch size, number of items, hop counts (symbolic), timer firings and every interleaving within the preemption bound are explored; at quiescence each outlink must sit in exactly one successful Add with value, via and hops intact. "
+                   "hopsToPath/pathToHops round trip for symbolic hop counts and arbitrary paths.",
+    "bounds": "1-2 outlinks, batch size 1-2, 0-2 failing Add calls before HQ recovers, 2 timer firings, hops 0..2 (round trip 0..12, paths <=5 bytes); <=2 preemptions",
+    "outside": "the local SQLite queue (uniqueness of waiting URLs, lq delivery); the HQ finisher/consumer chains; HQ websocket; real network failures (natively the replay uses an httptest stand-in)",
+    "assumptions": COMMON_ASSUME + ["gocrawlhq.Client.Add/Delete either deliver the whole batch or fail as a whole, per a fault sequence", "time.Sleep returns; tickers fire at most the granted number of times"],
+    "stub_pkgs": DEFAULT_STUBS + [STATS],
+    "harnesses": [
+        {"pkg": HQ, "func": "VerifH_C15_hops_roundtrip", "covers": ["zero-hops", "some-hops"]},
+        {"pkg": HQ, "func": "VerifH_C15_producer", "replay_tries": 2, "covers": ["hq-failed-first", "timer-flush", "stopped"]},
     ],
 }
